@@ -6,7 +6,7 @@ import ast
 from ..cfg import cfg_of
 from ..locks import accesses
 from ..model import AnalysisError, NotConst, dotted, norm, walk_own
-from .common import find_calls, guards_of, key_of, leads_only_to_raise, mentions
+from .common import find_calls, guards_of, key_of, leads_only_to_raise, mentions, str_template, template_text
 
 EXPLANATION = (
     "Taint / dominance analysis of the response head. All writers of Task.status and Task.response_headers in the "
@@ -24,7 +24,7 @@ HOP = {"connection", "keep-alive", "proxy-authenticate", "proxy-authorization", 
 
 
 def _closure(ctx):
-    f = ctx.p.functions.get("task.WSGITask.execute.start_response")
+    f = ctx.p.func("task.WSGITask.execute.start_response") if "task.WSGITask.execute.start_response" in ctx.p.functions else None
     if f is None:
         raise AnalysisError("anchor vanished: the start_response closure in WSGITask.execute")
     return f, cfg_of(f)
@@ -228,7 +228,8 @@ def rule_r4(ctx):
     else:
         ctx.r.violation(rid, key_of(f, None, "pair-rewritten"), "the serialiser re-appends something else than (name, value)", f.loc(lp))
     # the line format
-    fmts = [c for c in ast.walk(f.node) if isinstance(c, ast.BinOp) and isinstance(c.op, ast.Mod) and isinstance(c.left, ast.Constant) and c.left.value == "%s: %s"]
+    fmts = [c for c in ast.walk(f.node) if isinstance(c, (ast.BinOp, ast.JoinedStr, ast.Call)) and template_text(str_template(c), names=False) == "{}: {}"
+            and not any(pt[2] != "s" for pt in str_template(c) if not isinstance(pt, str))]
     if fmts:
         ctx.r.ok(rid, "lines are formatted as 'name: value'", f.loc(fmts[0]))
     else:
